@@ -509,6 +509,17 @@ def signature(trace, v):
     sparse ranges (>= 2 unpopulated cells) from the SOURCE MODEL's last
     solution: an override of such a blank cell on the model shows up in later
     calls of the compiled function."""
+    if v['clause'] == 'C17.indep' and 'step' in v:
+        # F-C07-3 seen through C17: write(books=model.books) followed by a
+        # second finish() on the same object re-reads formerly blank cells
+        state = 0
+        for st in trace['steps'][:v['step']]:
+            if st['do'] == 'op' and st['obj'] == v.get('obj'):
+                if st['op']['op'] == 'write_books':
+                    state = 1
+                elif st['op']['op'] == 'finish' and state == 1:
+                    return 'C17.indep/write-loaded-books-then-refinish'
+        return None
     if v['clause'] != 'C17.func' or 'step' not in v:
         return None
     from ..cyc import Graph
